@@ -17,6 +17,8 @@ THEOREMS = [
     "C10_gen_tlvmsgs_ok", "C10_gen_layouts_ok", "C10_gen_matches_handwritten",
     "C10_failure_roundtrip", "C10_gen_failures_ok", "C10_tlvmsg_always_record_grows",
     "C10_feature_vector_roundtrip",
+    "C10_optmsg_roundtrip", "C10_optmsg_fixpoint", "C10_gen_optmsgs_ok",
+    "C10_failure_update_roundtrip", "C10_gen_fdescs_ok",
 ]
 MODULE = "LV.Wire.Props"
 TARGETS = ["theories/Wire/Props.vo", "theories/Wire/Exec.vo", "theories/Wire/Examples.vo",
@@ -77,8 +79,9 @@ def t_case(r):
         return "CStreamCode %s %s %s %s" % (
             clist([t_kind(x) for x in r["known"]]), cbool(r["p2p"]), cbytes(r["b"]),
             cN(r["code"]))
-    if k == "msg" and r.get("tlvmsg"):
-        return "CTMsg %s %s %s %s %s %s %s" % (
+    if k == "msg" and (r.get("tlvmsg") or r.get("optmsg")):
+        return "%s %s %s %s %s %s %s %s" % (
+            "COMsg" if r.get("optmsg") else "CTMsg",
             cbytes(r["b"]), cbool(r["ok"]), cN(r["t"]),
             clist([t_fval(f) for f in r.get("fields") or []]), cbytes(r.get("extra") or ""),
             cbytes(r.get("reenc") or ""), clist([cbytes(x) for x in r.get("pts") or []]))
@@ -110,11 +113,15 @@ def load_gen_fields():
         txt = open(os.path.join(THEORIES, "Gen", "GenWire.v")).read()
     except OSError:
         return out
-    for m in re.finditer(r"\(\* @fields (\d+) (plain|tlv) (\S+) ext=(\S*) (.*?) ?\*\)", txt):
+    for m in re.finditer(r"\(\* @fields (\d+) (plain|tlv|opt) (\S+) ext=(\S*) (.*?) ?\*\)", txt):
         fields = []
         for tok in m.group(5).split():
             cond = None
-            if tok.startswith("?"):
+            if tok.startswith("!"):
+                # field of an optional tail: present iff every tail field is in the dump
+                name, codec = tok[1:].split(":")
+                cond = ("!tail", 0)
+            elif tok.startswith("?"):
                 c, name, codec = tok[1:].split(":")
                 fld, mask = c.split("&")
                 cond = (fld, int(mask))
@@ -134,6 +141,9 @@ def load_gen_failures():
         txt = open(os.path.join(THEORIES, "Gen", "GenWire.v")).read()
     except OSError:
         return set()
+    m = re.search(r"Definition gen_fdescs : ftable := \[(.*?)\]\.", txt, re.S)
+    if m:
+        return {int(x) for x in re.findall(r"\((\d+), FD\w+ \w+\)", m.group(1))}
     return {int(x) for x in re.findall(r"\((\d+), fail_\w+\)", txt)}
 
 
@@ -172,8 +182,12 @@ def failure_model_rows(wrows, codes):
 def ordered_fields(desc, fmap):
     """Field values in wire order, or None when a value is missing from the dump."""
     vals = []
+    tail = all(n in fmap for n, _, c in desc["fields"] if c is not None and c[0] == "!tail")
     for name, codec, cond in desc["fields"]:
-        if cond is not None:
+        if cond is not None and cond[0] == "!tail":
+            if not tail:
+                continue
+        elif cond is not None:
             f = fmap.get(cond[0])
             if f is None:
                 return None
@@ -181,7 +195,7 @@ def ordered_fields(desc, fmap):
                 continue
         f = fmap.get(name)
         if f is None:
-            if codec in ("FRest", "FTlvRest", "FVar16", "FFeat") or codec.startswith("FVar16Max") \
+            if codec in ("FRest", "FTlvRest", "FVar16", "FFeat", "FAddrs") or codec.startswith("FVar16Max") \
                     or codec.startswith("FArr16"):
                 f = ["b", ""]
             else:
@@ -247,8 +261,8 @@ def prepare_model_rows(wrows, gen):
             if f is None:
                 continue
             q["fields"] = f
-        if d["kind"] == "tlv":
-            q["tlvmsg"] = True
+        if d["kind"] in ("tlv", "opt"):
+            q["tlvmsg" if d["kind"] == "tlv" else "optmsg"] = True
             q["pts"] = curve_points(bytes.fromhex(r["b"])[2:])
             if r["ok"]:
                 e = r["fmap"].get(d["ext"])
@@ -602,7 +616,7 @@ def run(ctx):
         "message_types": types,
         "layout_modelled_types": sorted({r["t"] for r in mrows}),
         "layout_modelled_cases": len(mrows),
-        "tlv_message_cases": sum(1 for r in mrows if r.get("tlvmsg")),
+        "tlv_message_cases": sum(1 for r in mrows if r.get("tlvmsg") or r.get("optmsg")),
         "failure_model_cases": len(frows),
         "feature_boundary_rows": sum(1 for r in wrows if str(r.get("mut", "")).startswith("feat")),
         "feature_boundary_model_cases": sum(1 for r in mrows
